@@ -90,7 +90,12 @@ def evaluate(a, dst, confirm):
         else:
             r = sh(f"git -C {wt} apply {dst}/patch.diff")
             if r.returncode:
-                print("PATCH DOES NOT APPLY", r.stderr)
+                # the tree has moved on since the patch was written (later fix: commits): three-way merge on the blobs
+                r = sh(f"git -C {wt} apply --3way {dst}/patch.diff")
+                res["applied_by_3way_merge"] = r.returncode == 0
+            if r.returncode:
+                print("PATCH DOES NOT APPLY", r.stderr[-300:])
+                res["patch_applies_to_head"] = False
                 return res
         if getattr(a, "seeds", None):
             res["by_seed"] = {}
